@@ -18,7 +18,9 @@ RULE = ("full product of input spelling (directory: absolute, relative, trailing
 FILES = ["a.cmake", "d1/b.cmake", "d1/d2/c.cmake", "d1/d2/d3/x.y-z.cmake", "mods.cmake.d/arm.cmake",
          "d1/conf.cmake.in.cmake", ".hidden.cmake", "hidden.cmake", "-dash.cmake", "dash.cmake",
          "d1/データ.cmake", "cafe\u0301.cmake",      # East Asian wide characters, a combining mark
-         "trail_.cmake", "_lead_.cmake", "d1/st*r|p`q.cmake"]     # characters that are reST inline markup
+         "trail_.cmake", "_lead_.cmake", "d1/st*r|p`q.cmake",     # characters that are reST inline markup
+         "d1/Up.CMake", "d1/up.cmake",       # a mixed-case extension is not '.cmake': it stays in the name (next to its lower-case twin)
+         "d1/d2/index.cmake"]               # its page takes the place of the directory index (K4); it is a module page all the same
 SEPS = [".", "/", "::", "-"]
 
 
@@ -109,10 +111,10 @@ def run_config(job):
             if r["status"] != 0:
                 msgs.append(f"error: run failed for directory spelling {name}: {r['exc'] or r['stdout'][-200:]}")
                 continue
-            pages = {k: v for k, v in box.files(os.path.relpath(out, box.root)).items() if not k.endswith("index.rst")}
+            pages = box.files(os.path.relpath(out, box.root))
             titles = {}
             for fpath in FILES:
-                rst = fpath[:-len(".cmake")] + ".rst"
+                rst = fpath[:fpath.rindex(".")] + ".rst"
                 if rst not in pages:
                     msgs.append(f"missing: no page for {fpath} under spelling {name}")
                     continue
